@@ -1,8 +1,10 @@
 package main
 
 import (
+	"bytes"
 	"encoding/base64"
 	"fmt"
+	"mime/multipart"
 	"net/http"
 	"net/http/httptest"
 	"net/url"
@@ -21,7 +23,10 @@ import (
 //	auth  <accounts> <hdr>                      route GET /p with HTTPBasicAuth(accounts) as middleware
 //	authc <accounts> <u>:<p>|~                  the same, header produced by Request.SetBasicAuth
 //	ovr   <d|r> <method> <hdr> <body> <query>   HTTPMethodOverrideHandler around a recording handler (d)
-//	                                            or around a router through WrapHTTPHandlers (r)
+//	                                            or around a router through WrapHTTPHandlers (r); the `_method`
+//	                                            form field travels in an urlencoded body (<body> = hex), in a
+//	                                            multipart/form-data body (M<hex>: the field alone, N<hex>: a
+//	                                            file-upload form) and/or in the query string
 //	wrap  <specs> <times> <method> <hdr> <body> <query>
 //	chain <nglobal> <handlers> <hdr>            a rux chain mixing native handlers, wrapped http.Handlers
 //	                                            and HTTPBasicAuth
@@ -146,6 +151,8 @@ func (gatesEngine) Corpus() []Case {
 				ovr = append(ovr,
 					fmt.Sprintf("ovr %s %s %s ~ ~", mode, hx(m), hx(v)),
 					fmt.Sprintf("ovr %s %s ~ %s ~", mode, hx(m), hx(v)),
+					fmt.Sprintf("ovr %s %s ~ M%s ~", mode, hx(m), hx(v)),
+					fmt.Sprintf("ovr %s %s ~ N%s ~", mode, hx(m), hx(v)),
 					fmt.Sprintf("ovr %s %s ~ ~ %s", mode, hx(m), hx(v)))
 			}
 		}
@@ -159,6 +166,17 @@ func (gatesEngine) Corpus() []Case {
 		"ovr d "+hx("POST")+" "+hx("DELETE")+" - "+hx("put"),    // empty body value shadows the query value
 		"ovr d "+hx("POST")+" "+hx("DELETE")+" - ~",             // empty form value: header is used
 		"ovr r "+hx("POST")+" - - -",
+		// the field of a multipart/form-data body: FormValue sees it, behind the query value, before the header
+		"ovr d "+hx("POST")+" ~ M"+hx("put")+" ~",
+		"ovr r "+hx("POST")+" ~ N"+hx("Delete")+" ~",
+		"ovr d "+hx("POST")+" "+hx("DELETE")+" M"+hx("put")+" ~",           // multipart field wins over the header
+		"ovr d "+hx("POST")+" "+hx("DELETE")+" N"+hx("GET")+" ~",           // invalid multipart value: no fall back to the header
+		"ovr d "+hx("POST")+" "+hx("DELETE")+" M- ~",                        // empty multipart value: header is used
+		"ovr d "+hx("POST")+" ~ M"+hx("put")+" "+hx("patch"),               // the query value stands BEFORE the multipart value
+		"ovr r "+hx("POST")+" ~ N"+hx("put")+" "+hx("GET"),                 // ... even when it is invalid
+		"ovr d "+hx("POST")+" "+hx("DELETE")+" N"+hx("put")+" -",           // ... or empty (then the header is used)
+		"ovr d "+hx("PUT")+" ~ M"+hx("delete")+" ~",                        // not a POST: untouched
+		"ovr d "+hx("POST")+" ~ M"+hx("PUT\n")+" ~",
 		"ovr d "+hx("POST")+" "+hx("DELETſ")+" ~ ~", // U+017F upper-cases to S: "DELETS"
 		"ovr d "+hx("POST")+" "+hx("ｐｕｔ")+" ~ ~",
 		"ovr d "+hx("POST")+" "+hx("put\xff")+" ~ ~",
@@ -172,6 +190,8 @@ func (gatesEngine) Corpus() []Case {
 		"wrap o 1 " + hx("POST") + " " + hx("put") + " ~ ~",
 		"wrap t1,o,t2 2 " + hx("POST") + " ~ " + hx("delete") + " ~",
 		"wrap t3,o,o,t1 2 " + hx("POST") + " " + hx("PATCH") + " ~ ~", // override twice: second sees PATCH, no-op
+		"wrap t1,o,t2 2 " + hx("POST") + " ~ N" + hx("delete") + " ~", // file-upload form
+		"wrap o,t1 1 " + hx("POST") + " " + hx("put") + " M" + hx("patch") + " ~",
 		"wrap t1,x2,t3 2 " + hx("GET") + " ~ ~ ~",
 		"wrap x1 1 " + hx("GET") + " ~ ~ ~",
 		"wrap - 1 " + hx("GET") + " ~ ~ ~", // n = 0: nil handler (observation)
@@ -334,7 +354,9 @@ func gatesGenMethod(r *Rand) string {
 	}
 }
 
-// carriers of the override value: header / urlencoded body / query string, any subset
+// carriers of the override value: header / body / query string, any subset. A body carries the form field
+// url-encoded (bare hex) or as a field of a multipart/form-data body (M = the field alone, N = a file-upload
+// form), about 45 % of the bodies are multipart.
 func genCarriers(r *Rand) string {
 	one := func(chance int) string {
 		if r.Chance(chance, 10) {
@@ -342,15 +364,28 @@ func genCarriers(r *Rand) string {
 		}
 		return "~"
 	}
+	body := func(chance int) string {
+		b := one(chance)
+		if b == "~" {
+			return b
+		}
+		switch x := r.Intn(20); {
+		case x < 5:
+			return "M" + b
+		case x < 9:
+			return "N" + b
+		}
+		return b
+	}
 	switch r.Intn(6) {
 	case 0:
 		return one(10) + " ~ ~"
 	case 1:
-		return "~ " + one(10) + " ~"
+		return "~ " + body(10) + " ~"
 	case 2:
 		return "~ ~ " + one(10)
 	default:
-		return one(5) + " " + one(5) + " " + one(4)
+		return one(5) + " " + body(5) + " " + one(4)
 	}
 }
 
@@ -568,14 +603,23 @@ func runAuth(accounts map[string]string, setHeader func(*http.Request)) (string,
 // the request of the ovr / wrap ops
 func overrideRequest(method string, f []string) *http.Request {
 	hdr, hasHdr := unohx(f[0])
-	body, hasBody := unohx(f[1])
+	mpart := byte(0)
+	btok := f[1]
+	if btok != "" && (btok[0] == 'M' || btok[0] == 'N') {
+		mpart, btok = btok[0], btok[1:]
+	}
+	body, hasBody := unohx(btok)
 	query, hasQuery := unohx(f[2])
 	target := "/m"
 	if hasQuery {
 		target += "?" + handlers.HTTPMethodOverrideFormKey + "=" + url.QueryEscape(query)
 	}
 	var req *http.Request
-	if hasBody {
+	if hasBody && mpart != 0 {
+		ctype, b := overrideMultipart(mpart == 'N', body)
+		req = httptest.NewRequest("POST", target, strings.NewReader(b))
+		req.Header.Set("Content-Type", ctype)
+	} else if hasBody {
 		req = httptest.NewRequest("POST", target, strings.NewReader(handlers.HTTPMethodOverrideFormKey+"="+url.QueryEscape(body)))
 		req.Header.Set("Content-Type", "application/x-www-form-urlencoded")
 	} else {
@@ -586,6 +630,27 @@ func overrideRequest(method string, f []string) *http.Request {
 		req.Header.Set(handlers.HTTPMethodOverrideHeader, hdr)
 	}
 	return req
+}
+
+// a multipart/form-data body that carries the `_method` field exactly once: alone, or the way a browser sends
+// a form with a file input (a text field before, the file part after). The boundary is fixed (determinism).
+func overrideMultipart(upload bool, val string) (ctype, body string) {
+	const boundary = "XGATESBOUNDARYX"
+	var b bytes.Buffer
+	mw := multipart.NewWriter(&b)
+	if err := mw.SetBoundary(boundary); err != nil {
+		panic("harness: " + err.Error())
+	}
+	if upload {
+		_ = mw.WriteField("name", "inhere")
+	}
+	_ = mw.WriteField(handlers.HTTPMethodOverrideFormKey, val)
+	if upload {
+		fw, _ := mw.CreateFormFile("avatar", "a.txt")
+		_, _ = fw.Write([]byte("file content\r\n_method=DELETE\r\n"))
+	}
+	_ = mw.Close()
+	return mw.FormDataContentType(), b.String()
 }
 
 func seenRequest(req *http.Request) string {
